@@ -58,6 +58,19 @@ where
         self.input.read_exact(buffer).map_err(to_ase)
     }
 
+    /// Reads exactly `count` bytes. Memory is only allocated for data that is
+    /// actually present in the input.
+    pub(crate) fn read_bytes(&mut self, count: usize) -> Result<Vec<u8>> {
+        let mut data = Vec::new();
+        (&mut self.input)
+            .take(count as u64)
+            .read_to_end(&mut data)?;
+        if data.len() != count {
+            return Err(std::io::Error::from(std::io::ErrorKind::UnexpectedEof).into());
+        }
+        Ok(data)
+    }
+
     pub(crate) fn skip_reserved(&mut self, count: usize) -> Result<()> {
         let mut ignored = vec![0_u8; count];
         self.input.read_exact(&mut ignored).map_err(to_ase)
